@@ -3,7 +3,7 @@
     Enc/RleModel.v (src/encoding/rle.c).  The other encodings are restated from the enc2 engine below. *)
 From Coq Require Import NArith List.
 From Carquet Require Import Base.Res Enc.BitpackSpec Enc.BitpackModel Enc.BitpackProofs Enc.BitpackNProofs
-  Enc.RleSpec Enc.RleModel Enc.RleDecProofs Enc.RleProofs.
+  Enc.RleSpec Enc.RleModel Enc.RleDecProofs Enc.RleProofs File.ForeignModel Enc.RleLevelsRoundtrip.
 Import ListNotations.
 Local Open Scope N_scope.
 
@@ -40,6 +40,13 @@ Theorem rle_roundtrip : forall w vs, (w <= 32)%nat -> fits w vs -> 2 * N.of_nat 
   decode_all w (encode_all w vs) (length vs) = vs.
 Proof. exact rle_roundtrip_lemma. Qed.
 Print Assumptions rle_roundtrip.
+
+(** ... and the int16 level decoder (carquet_rle_decode_levels, a separate implementation in rle.c) reads
+    back what the level encoder wrote, at every level bit width 1..32. *)
+Theorem rle_levels_roundtrip : forall w vs, (1 <= w <= 32)%nat -> fits w vs -> 2 * N.of_nat (length vs) < 2 ^ 32 ->
+  rle_decode_levels w (encode_all w vs) (length vs) = vs.
+Proof. exact rle_levels_roundtrip_lemma. Qed.
+Print Assumptions rle_levels_roundtrip.
 
 (** The streaming decoder agrees with the one-shot content under any chunking and skipping: every
     history of get / get_batch k / skip k on any legal stream observes exactly what a cursor over the
